@@ -41,11 +41,15 @@ import (
 )
 
 const (
-	cpuCapSeconds  = 20.0 // oracle (ii): CPU seconds one case may burn before it is called a hang
+	// oracle (ii): CPU seconds (not wall time: independent of machine load) one case may burn
+	// before it is called a hang. The dearest legitimate case of the three families costs about a
+	// millisecond; the balloon inputs legitimately burn seconds (hundreds of MiB inflated).
+	cpuCapSeconds        = 5.0
+	cpuCapBalloonSeconds = 20.0
 	blockedSeconds = 120  // a case in flight while the process stays idle this long is blocked
 	workerASLimit  = 12 << 30
 	// a worker whose process died is resumed (culprit skipped) at most this many times
-	maxDeathsPerWorker = 3
+	maxDeathsPerWorker = 2
 )
 
 var (
@@ -56,6 +60,7 @@ var (
 	flagCaseBase  = flag.Int64("casebase", 0, "case number reached before -fromshard (internal)")
 	flagBalloon   = flag.Bool("balloon", false, "run the balloon family (internal, child under ulimit)")
 	flagAfter     = flag.Int64("after", 0, "skip every case numbered <= this (internal)")
+	flagFamilies  = flag.String("families", "", "development aid: run only these families (f1,f2,f3,balloon); the run is then reported as not exhaustive")
 )
 
 // ---------------------------------------------------------------------------
@@ -68,10 +73,10 @@ type shard struct {
 	B   int // f1t: first slot; f2p: first position
 }
 
-// pairLine: in the quick tier the 2-letter header sets are combined only with request lines
-// whose method is a token and whose version is supported (the others are refused while the
-// request line is parsed, before any header is looked at; they keep the 0- and 1-letter sets).
-func pairLine(l reqLine) bool { return l.M.Token && l.V.OK }
+// pairLine: in the quick tier the 2-letter header sets are not combined with request lines that
+// are refused while the request line itself is parsed, before any header is looked at (empty
+// method, version JUNK); those lines keep the 0- and 1-letter sets. (HTTP/2.0 is served.)
+func pairLine(l reqLine) bool { return l.M.Token && l.V.V != "JUNK" }
 
 // pairCfg: in the quick tier the pair neighbourhood runs on two configurations only.
 func pairCfg(quick bool, c int) bool { return !quick || cfgs[c].Name == "default" || cfgs[c].Name == "customctx" }
@@ -83,7 +88,33 @@ func pairSeedCount(quick bool) int {
 	return 4
 }
 
+func famOn(f string) bool {
+	if *flagFamilies == "" {
+		return true
+	}
+	for _, x := range strings.Split(*flagFamilies, ",") {
+		if strings.TrimSpace(x) == f {
+			return true
+		}
+	}
+	return false
+}
+
 func buildShards(quick bool) []shard {
+	all := buildAllShards(quick)
+	if *flagFamilies == "" {
+		return all
+	}
+	var out []shard
+	for _, s := range all {
+		if famOn(s.Fam[:2]) {
+			out = append(out, s)
+		}
+	}
+	return out
+}
+
+func buildAllShards(quick bool) []shard {
 	var out []shard
 	nl := len(allLines())
 	for li := 0; li < nl; li++ {
@@ -199,7 +230,7 @@ func (w *worker) watchdog() {
 			continue
 		}
 		reason := byte(0)
-		if cpu-cpuAt > cpuCapSeconds {
+		if cpu-cpuAt > w.cpuCap {
 			reason = 1
 		} else if time.Since(wallAt) > blockedSeconds*time.Second && cpu-cpuAt < 1 {
 			reason = 2
@@ -246,7 +277,10 @@ func newWorker(r *core.Run) *worker {
 		core.Fatal("cannot create the download file: %v", err)
 	}
 	w := &worker{r: r, l: core.NewLocal(), rb: newReqBuilder(), qs: attackStrings(), file: file, cfgIdx: -1,
-		skip: parseSkip(*flagSkip), only: *flagOnly, trace: *flagTrace}
+		skip: parseSkip(*flagSkip), only: *flagOnly, trace: *flagTrace, cpuCap: cpuCapSeconds}
+	if *flagBalloon {
+		w.cpuCap = cpuCapBalloonSeconds
+	}
 	if r.Out != "" {
 		w.prog = mapProgress(r.Out + ".prog")
 	}
@@ -307,8 +341,15 @@ func runWorker(r *core.Run) {
 // finish hands the worker's results to the parent. Samples also travel as notes so that the
 // parent can choose a deterministic, family-balanced subset (merge order of partials varies).
 func (w *worker) finish(r *core.Run) {
-	for _, s := range w.l.P.Samples {
-		r.P.Notes = append(r.P.Notes, "SAMPLE "+core.Key(s))
+	fams := make([]string, 0, len(w.samples))
+	for f := range w.samples {
+		fams = append(fams, f)
+	}
+	sort.Strings(fams)
+	for _, f := range fams {
+		for _, s := range w.samples[f] {
+			r.P.Notes = append(r.P.Notes, "SAMPLE "+core.Key(s))
+		}
 	}
 	for _, v := range w.l.P.Violations {
 		r.P.Notes = append(r.P.Notes, "VIOL "+core.Key(v))
@@ -351,7 +392,7 @@ func runBalloon(r *core.Run) {
 			over := res.alloc > budgetFor(len(bc.Req))
 			w.l.Outcome(fmt.Sprintf("balloon class=%s st=%d over-budget=%v", bc.Class, st, over))
 			if ci == 0 && (bc.ID == "flash:array16-n=0xffff" || bc.ID == "zip:gzip2-4MiB") {
-				w.l.Sample(map[string]any{"case": desc(), "status": st, "alloc_bytes": res.alloc, "budget_bytes": budgetFor(len(bc.Req))})
+				w.sample("balloon", map[string]any{"case": desc(), "status": st, "alloc_bytes": res.alloc, "budget_bytes": budgetFor(len(bc.Req))})
 			}
 			runtime.GC()
 			if w.only < 0 {
@@ -563,7 +604,7 @@ func recoverWorker(r *core.Run, idx, n int) {
 			fromShard, caseBase = cp.ShardPos, cp.CaseNo
 			_ = os.Remove(out + ".ckpt")
 		}
-		common := []string{"-worker", strconv.Itoa(idx), "-nworkers", strconv.Itoa(n), "-fromshard", strconv.Itoa(fromShard), "-casebase", strconv.FormatInt(caseBase, 10)}
+		common := []string{"-families", *flagFamilies, "-worker", strconv.Itoa(idx), "-nworkers", strconv.Itoa(n), "-fromshard", strconv.Itoa(fromShard), "-casebase", strconv.FormatInt(caseBase, 10)}
 		// confirm: exactly that case, traced, in a fresh child
 		conf := runChild(r, out+".confirm", 0, env, append(append([]string{}, common...), "-only", strconv.FormatInt(culprit, 10), "-trace")...)
 		_ = os.Remove(out + ".confirm.prog")
@@ -673,7 +714,12 @@ func main() {
 		_ = os.Remove(partPath(i) + ".ckpt")
 	}
 	t0 := time.Now()
-	crashed := r.SpawnWorkers(n, []string{"GOMAXPROCS=1"})
+	var extra []string
+	if *flagFamilies != "" {
+		extra = []string{"-families", *flagFamilies}
+		r.Cap("development run restricted to families " + *flagFamilies)
+	}
+	crashed := r.SpawnWorkers(n, []string{"GOMAXPROCS=1"}, extra...)
 	fmt.Fprintf(os.Stderr, "C07: %d workers done in %.1fs, %d died\n", n, time.Since(t0).Seconds(), len(crashed))
 	sort.Strings(crashed)
 	var wg sync.WaitGroup
@@ -692,7 +738,9 @@ func main() {
 		_ = os.Remove(partPath(i) + ".ckpt")
 	}
 	t1 := time.Now()
-	runBalloonParent(r)
+	if famOn("balloon") {
+		runBalloonParent(r)
+	}
 	fmt.Fprintf(os.Stderr, "C07: balloon family done in %.1fs\n", time.Since(t1).Seconds())
 
 	// fold the per-worker allocation maxima
@@ -752,7 +800,7 @@ func main() {
 			samples = append(samples, m)
 		}
 	}
-	if r.P.Counters["clean_request_reached_handler"] == 0 || r.P.Counters["f3_cases"] == 0 || r.P.Counters["f2_cases"] == 0 {
+	if *flagFamilies == "" && len(r.P.Caps) == 0 && len(r.P.Violations) == 0 && (r.P.Counters["clean_request_reached_handler"] == 0 || r.P.Counters["f3_cases"] == 0 || r.P.Counters["f2_cases"] == 0) {
 		core.Fatal("vacuous run: no clean request reached the /all handler, or a family did not run")
 	}
 	quick := r.Quick()
@@ -782,12 +830,12 @@ func main() {
 		"F3 = %d helpers x %d attacker strings (all strings of <=3 symbols over {a,CR,LF,CRLF,NUL,\",;,comma,:,SP,e-acute} + 4 classics). "+
 		"Balloon = %d inputs (msgpack array headers in fiber_flash, 1-3 layers of gzip over zeros) each on a fresh app in a child under ulimit -v 4000000. "+
 		"Non-trivial = differs from the benign baseline (F1: any header letter or hostile request-line letter; F2: any edit; F3: q not in a*; balloon: all). "+
-		"Oracles: no panic (escaped or inside an accessor probe); process survives and ServeConn returns within %.0f CPU-seconds; MemStats.TotalAlloc delta <= %d + %d*len(request) (re-measured on a fresh app before reporting); reply parses under the strict parser, response count bounded by the header blocks sent (exactly 1 for body-less well-formed requests); "+
+		"Oracles: no panic (escaped or inside an accessor probe); process survives and ServeConn returns within %.0f CPU-seconds (balloon inputs: %.0f), a death/hang is confirmed by re-running the case alone in a fresh process; MemStats.TotalAlloc delta <= %d + %d*len(request) (re-measured on a fresh app before reporting); reply parses under the strict parser, response count bounded by the header blocks sent (exactly 1 for body-less well-formed requests); "+
 		"F3: header names subset of the helper's expected set, each once, expected status and body (helpers marked name-like are not judged for q containing CR/LF/NUL: outside the documented domain of a token position); "+
 		"status: definitely malformed requests (empty method, non-numeric/negative/conflicting Content-Length, header line without colon, NUL in a header value) -> 4xx; well-formed request with method outside the configured set -> 501, inside -> not 501; never 5xx other than 501/505; everything else unspecified.",
 		len(cfgs), cfgNames, len(allLines()), len(targetsL), len(slots), nLetters,
 		map[bool]string{true: "", false: fmt.Sprintf(" plus every set of 3 letters for the %d request lines that reach a handler", len(handlerLines()))}[quick],
-		len(seeds), len(editBytes), pairSeedCount(quick), len(helpers), len(attackStrings()), len(balloonCases(quick)), cpuCapSeconds, budgetA, budgetB)
+		len(seeds), len(editBytes), pairSeedCount(quick), len(helpers), len(attackStrings()), len(balloonCases(quick)), cpuCapSeconds, cpuCapBalloonSeconds, budgetA, budgetB)
 	ev := core.Evidence{
 		Level:       "exploration",
 		Exhaustive:  true,
@@ -798,7 +846,7 @@ func main() {
 			"rule":                rule,
 			"bounds": map[string]any{"max_header_letters": maxHdr, "request_lines": len(allLines()), "header_slots": len(slots), "header_letters": nLetters,
 				"seeds": len(seeds), "pair_seeds": pairSeedCount(quick), "edit_bytes": len(editBytes), "helpers": helperNames, "attack_strings": len(attackStrings()),
-				"balloon_inputs": len(balloonCases(quick)), "configs": cfgNames, "cpu_cap_seconds": cpuCapSeconds, "workers": n},
+				"balloon_inputs": len(balloonCases(quick)), "configs": cfgNames, "cpu_cap_seconds": cpuCapSeconds, "cpu_cap_seconds_balloon": cpuCapBalloonSeconds, "workers": n},
 			"alloc_budget": map[string]any{"A_bytes": budgetA, "B_bytes_per_request_byte": budgetB,
 				"max_fraction_used_by_cases_within_budget": maxFrac, "that_case_alloc_bytes": maxAlloc, "that_case_request_bytes": maxLen, "that_case": json.RawMessage(orNull(maxDesc))},
 			"unspecified_skipped": r.P.Counters["unspecified_skipped"],
